@@ -97,6 +97,8 @@ def run_copy(name, tier='quick', props=None):
         sh('git -C %s worktree remove --force %s' % (REPO, wt))
         shutil.rmtree(wt, ignore_errors=True)
     meta.setdefault('detection_on_copy', {})[tier] = results
+    meta['detection_latest'] = {'tier': tier, 'verif_commit': sh('git -C %s rev-parse --short HEAD' % VERIF)[1].strip(),
+                                'where': 'scratch worktree of /repo HEAD with the patch applied (CARDUTIL_REPO)', 'results': results}
     json.dump(meta, open(os.path.join(d, 'meta.json'), 'w'), indent=1)
     return results
 
@@ -135,6 +137,12 @@ def main():
         run(sys.argv[2], sys.argv[3] if len(sys.argv) > 3 else 'quick', sys.argv[4].split(',') if len(sys.argv) > 4 else None)
     elif cmd == 'runcopy':
         run_copy(sys.argv[2], sys.argv[3] if len(sys.argv) > 3 else 'quick', sys.argv[4].split(',') if len(sys.argv) > 4 else None)
+    elif cmd == 'runallcopy':
+        # python -m harness.seed runallcopy <streams> <k>: stream k of <streams> parallel streams over all kept changes
+        n, k = int(sys.argv[2]), int(sys.argv[3])
+        names = [x for x in sorted(os.listdir(os.path.join(VERIF, 'seeded'))) if os.path.exists(os.path.join(VERIF, 'seeded', x, 'meta.json'))]
+        for name in names[k::n]:
+            run_copy(name, 'quick')
     elif cmd == 'runall':
         tier = sys.argv[2] if len(sys.argv) > 2 else 'quick'
         for name in sorted(os.listdir(os.path.join(VERIF, 'seeded'))):
